@@ -537,6 +537,26 @@ var svSeen struct{ handler, class int }
 func runSurvive(e *ev.Env) {
 	setup(e)
 	defer stopProfile()
+	if e.Only == isoCase {
+		// child of isolated(): the input comes through the environment
+		e.Corpus("isolated-input", func(c *ev.Case) {
+			raw, meta := isoInput()
+			f := strings.Split(meta, ",")
+			if len(raw) == 0 || len(f) != 4 {
+				e.Inconclusive("isolated child without input")
+				return
+			}
+			kind, _ := strconv.Atoi(f[0])
+			n, _ := strconv.Atoi(f[3])
+			reqs := make([]*rq, max(n, 1))
+			for i := range reqs {
+				reqs[i] = &rq{}
+			}
+			// judged like a mutated stream: no request structure to compare counts with
+			surviveCase(e, c, appOpts{kind: kind % nCfg, ipValidation: f[1] == "true", trustProxy: f[2] == "true"}, reqs, raw, true, nil)
+		})
+		return
+	}
 
 	// -------- fixed corpus --------------------------------------------------------------
 	one := func(name string, o appOpts, raw []byte, wantStatus int) {
@@ -569,6 +589,15 @@ func runSurvive(e *ev.Env) {
 	one("flash-array16-8481", appOpts{}, flashReq([]byte{0xdc, 0x21, 0x21}), 200)
 	bomb := encodeBody("gzip", make([]byte, 1<<20))
 	one("gzip-1k-to-1m", appOpts{}, []byte("POST /ks?rid=c6 HTTP/1.1\r\nHost: x\r\nContent-Encoding: gzip\r\nContent-Length: "+itoa(len(bomb))+"\r\n\r\n"+string(bomb)), 200)
+
+	zreq := func(log uint) []byte {
+		return []byte("POST /ks?rid=c7 HTTP/1.1\r\nHost: x\r\nContent-Encoding: zstd\r\nContent-Length: 10\r\n\r\n" + string(zstdWindowFrame(log)))
+	}
+	// (a smaller declared window is not judged by the budget oracle: fasthttp keeps the decoder,
+	// history buffer included, in a process-wide pool, so the repetition does not allocate again;
+	// the 512 MiB case is among the isolated ones at the end)
+	brbomb := brotliStream(bytes.Repeat([]byte{'z'}, 1<<20))
+	one("brotli-13-bytes-to-1m", appOpts{}, []byte("POST /ks?rid=c8 HTTP/1.1\r\nHost: x\r\nContent-Encoding: br\r\nContent-Length: "+itoa(len(brbomb))+"\r\n\r\n"+string(brbomb)), 200)
 
 	// -------- generated pipelines --------------------------------------------------------
 	e.Cases("pipe", e.N(60000, 5000000), func(c *ev.Case) {
@@ -620,14 +649,21 @@ func runSurvive(e *ev.Env) {
 	// (last, so that a replay of one of them is the only thing that dies)
 	e.Corpus("fatal-flash-array32-max", func(c *ev.Case) {
 		raw := flashReq([]byte{0xdd, 0xff, 0xff, 0xff, 0xff})
-		if !isolated(e, c, "wire.survive", hexOf(raw)) {
+		if !isolated(e, c, "wire.survive", raw, "0,false,false,1") {
+			return
+		}
+		surviveOne(e, c, appOpts{}, raw, 200)
+	})
+	e.Corpus("fatal-zstd-10-bytes-declare-512m-window", func(c *ev.Case) {
+		raw := zreq(29)
+		if !isolated(e, c, "wire.survive", raw, "0,false,false,1") {
 			return
 		}
 		surviveOne(e, c, appOpts{}, raw, 200)
 	})
 	e.Corpus("fatal-flash-array32-min-printable", func(c *ev.Case) {
 		raw := flashReq([]byte{0xdd, 0x21, 0x21, 0x21, 0x21})
-		if !isolated(e, c, "wire.survive", hexOf(raw)) {
+		if !isolated(e, c, "wire.survive", raw, "0,false,false,1") {
 			return
 		}
 		surviveOne(e, c, appOpts{}, raw, 200)
@@ -648,10 +684,11 @@ func surviveCase(e *ev.Env, c *ev.Case, o appOpts, reqs []*rq, raw []byte, mutat
 	mk := func() *fiber.App { return buildSinkApp(o) }
 	journalInput(e, cfg, raw)
 	if c.ID[:6] != "corpus" && fatalCandidate(raw) {
-		// a flash cookie with an array32 header: announces >= 2^29 elements whenever it passes
-		// fasthttp's header check. Run it in a child so that this shard survives.
+		// a flash cookie with an array32 header (announces >= 2^29 elements whenever it passes
+		// fasthttp's header check) or a zstd frame declaring a window >= 16 MiB: run it in a
+		// child so that this shard survives.
 		e.Stat("fatal_candidates", 1)
-		if !isolated(e, c, "wire.survive", hexOf(raw)) {
+		if !isolated(e, c, "wire.survive", raw, itoa(o.kind)+","+strconv.FormatBool(o.ipValidation)+","+strconv.FormatBool(o.trustProxy)+","+itoa(len(reqs))) {
 			return
 		}
 	}
